@@ -11,17 +11,62 @@ import HexProofs.Numeric.Supertrend
 import HexProofs.Numeric.Rounding
 import HexProofs.Numeric.SeriesMore
 import HexProofs.Numeric.Demo
+import HexProofs.Numeric.SeriesRSI
+import HexProofs.Numeric.SeriesSTOCH
+import HexProofs.Numeric.SeriesWindows
+import HexProofs.Numeric.SeriesADX
+import HexProofs.Numeric.SeriesTSI
+import HexProofs.Numeric.SeriesATR
+import HexProofs.Numeric.SeriesStdevBB
+import HexProofs.Numeric.SeriesKC
+import HexProofs.Numeric.SeriesSupertrend
+import HexProofs.Numeric.SeriesUtility
 /-
 C10 – Outputs satisfy their structural invariants on every input
 (NUMERIC layer: ordered field `K` with `LawfulPyF K`; IEEE rounding error, overflow and NaN are
 outside these theorems – see HexProofs/Numeric/Lawful.lean).
 
-Each invariant is proved of the value a `_calculate_reading` call returns, under the hypotheses
-that make it meaningful (non-negative smoothed gain/loss, low ≤ input ≤ high, σ ≥ 0, …), and is
-shown to survive `round_values` where the bound is an integer (`stored_between`).  Missing for the
-full property (`C10_FULL`): the framework induction showing that those hypotheses hold on every
-reachable state (e.g. that the stored average gain/loss are non-negative because they start
-non-negative and `wilder_nonneg` preserves it – the step lemmas are here, the induction is not).
+Two layers.
+
+(1) PER CALL (first part of the file, unchanged): each invariant is proved of the value one
+`_calculate_reading` call returns, under the hypotheses that make it meaningful (non-negative smoothed
+gain/loss, low ≤ input ≤ high, σ ≥ 0, previous direction ±1, …), and is shown to survive `round_values`
+where the bound is an integer (`stored_rounded`, `stored_order`).
+
+(2) WHOLE RUNS (section "whole runs", from the whole-series theorems of `HexProofs/Numeric/Series*.lean`): the
+hypotheses of layer (1) are now ESTABLISHED by induction along the run, so the invariants are statements about
+every candle of every raw stream.  For each relation there is a `…_run_…` theorem (for EVERY list of raw candles
+the batch run on the base timeframe RETURNS and every candle satisfies the invariant) and a `…_live_…` theorem
+(every manager with an incremental spec – base timeframe, collapsing timeframe, collapsing + gap filling –, every
+initial list, every append schedule: whenever the history returns, every candle satisfies the invariant, indices
+counted on the manager's candles).  Inputs are candle fields; `hraw` / `M.Ok`: the incoming candles carry no
+readings yet.  True warm-up indices (several differ from what one would guess) and budgets:
+
+  relation                         theorems                      first value at   budget on the bound
+  RSI ∈ [0,100]                    `rsi_run_range/_live_`        p                none (exact)
+  STOCH stoch ∈ [0,100]            `stoch_run_ranges/_live_`     p−1              none (exact; own dict never `None`)
+        %K, %D ∈ [0,100] ± b       (`StochInRange`)              p+k−2, p+k+s−3   b_K=(j−t_K+1)ε₄, b_D=(j−t_D+1)ε₄+b_K (+ε_n own)
+  Aroon up/down ∈ [0,100]          `aroon_run_range/_live_`      p                none (exact); osc ∈ [−100,100]
+  ADX ∈ [0,100], DI± ≥ 0           `adx_run_ranges/_live_`       p+sg−1 / p       none (exact); no upper bound on DI±
+  TSI ∈ [−100,100]                 `tsi_run_range/_live_`        p+s−1            exact under `RoundNegLe`; else 100+200β/A+ε_n
+  ATR ≥ 0 (and its TR helper)      `atr_run_nonneg/_live_`       p (TR: 1)        none
+  σ ≥ 0                            `stdev_run_nonneg/_live_`     p                none (needs `NonnegSqrt`)
+  BBANDS lower ≤ middle ≤ upper    `bbands_run_order/_live_`     p                none (exact order of the stored floats)
+  KC lower ≤ band ≤ upper (m ≥ 0)  `kc_run_order/_live_`         p                none
+  Donchian lower ≤ mid ≤ upper,    `donchian_run_order/_live_`   p−1              none for order and enclosure of the stored
+    encloses the candle                                                            values; ε for "= window extreme / mean"
+  HighestLowest encloses           `hl_run_enclose/_live_`       0                ε (ints exact)
+  Supertrend direction ±1,         `supertrend_run_shape/_live_` p                none (dict on every candle)
+    exactly one of long/short
+  Counter int, +1 or reset         `counter_run_moves`           0                none; every `[PyF F]`, every schedule
+  TR ≥ high−low ≥ 0, SMA within    `tr_series_ge_range`, `sma_series_within` (row-major spec; C01 ties it to the engine)
+
+`C10_RSI` – the statement the former `C10_FULL` made (every stored RSI reading of the ENGINE's `calculate()` on
+every raw stream is `None` or in [0,100]), corrected (fuel, name hypothesis) – is PROVED: `C10_RSI_holds`.
+Still open (`C10_FULL`, new and broader): inputs that are another indicator's reading / late-starting inputs,
+manager configurations without a spec (Heikin-Ashi, lifespan), candles already carrying other readings; IEEE
+effects; TSI's range without the extra oddness law `RoundNegLe`; `DI± ≤ 100`; whole-run forms of the MACD
+histogram identity and the OBV step (per call here; MACD series: C06).
 -/
 namespace Hex.C10
 open Hex Hex.Numeric
@@ -350,26 +395,907 @@ theorem sma_series_within (p : Nat) (hp : 2 ≤ p) (nm : String) (n : Nat) (hk :
   unfold winMean at this
   exact ⟨y, hy, by linarith [this.1, hm.1], by linarith [this.2, hm.2]⟩
 
-/-- The full property, stated for RSI (the other relations – Stochastic/Aroon/ADX in [0,100], TSI
-in [−100,100], ATR, σ ≥ 0, band orderings, Donchian enclosing the candle, MACD histogram,
-Supertrend shape, OBV and Counter moves – have the same shape): on every raw stream and every
-`period ≥ 2` the ENGINE `calculate` returns and every stored RSI reading is `None` or a float in
-[0, 100].
-NOT proved.  Proved instead: each relation for the value returned by a single call under the
-hypothesis that makes it meaningful, that integer bounds and weak order survive `round_values`
-(`stored_rounded`, `stored_order`), and the whole-series relations for TR and SMA above.
-Missing: the framework induction establishing those hypotheses on reachable states (non-negative
-smoothed gain/loss and DM – the step lemmas `rsi_state_nonneg`, `di_nonneg`, `atr_nonneg` are here
-–, σ ≥ 0 read back from the STDEV helper, previous Supertrend direction ±1, `|second| ≤ abs_second`
-for TSI, DI ≤ 100 for ADX which needs ATR ≥ smoothed DM), and the slack analysis for relations
-between two separately rounded floats (e.g. the rounded Donchian middle vs the mean of the rounded
-bounds: within ε). -/
-def C10_FULL : Prop :=
+/-! ### whole runs: every candle of every raw stream, every append schedule, every timeframe
+
+From here on the statements are about RUNS of the real object, not about single `_calculate_reading`
+calls.  Two forms per indicator:
+
+* `…_run_…` – the batch run on the base timeframe: for EVERY list of raw candles, building the indicator
+  over it and calling `calculate()` RETURNS, and every candle of the result satisfies the invariant
+  (`None` / the all-`None` dict strictly before the TRUE warm-up index, the invariant from it on);
+* `…_live_…` – for every manager with an incremental spec `M : MgrSpec K` (base timeframe `MgrSpec.base`,
+  collapsing timeframe `MgrSpec.tf`, collapsing + gap filling `MgrSpec.fill`), every initial list and every
+  append schedule: WHENEVER the history returns, its candles are as many as the manager's candles
+  `M.spec stream` (the stream itself on the base timeframe, the collapsed / filled candles otherwise) and
+  every one satisfies the invariant (indices and textbook quantities refer to `M.spec stream`).
+
+They are the whole-series theorems of `HexProofs/Numeric/Series*.lean` (induction along the row-major run of
+the kind's `TreeSpec`) composed with `TreeSpec.batch_iff` / `TreeSpec.live_refines`. -/
+
+/-- how a stored `Num` relates to its value: `round_values` leaves ints alone, and rounding fixes ints -/
+theorem stored_num (n : Nat) (a : Num K) : (a.roundBy n).toF = PyF.round n a.toF := by
+  cases a with
+  | int i => simp [Num.roundBy, round_int]
+  | flt x => rfl
+
+/-! #### RSI ∈ [0, 100] -/
+
+/-- **RSI ∈ [0, 100] on every candle of every history** (`period ≥ 1`, input a candle field): the own
+reading is `None` on candles `0 … p−1` and from the warm-up index `p` on a float in `[0, 100]` EXACTLY
+(no budget: the `<name>_data` averages are stored unrounded and are non-negative by induction, and
+monotone rounding fixes `0` and `100`). -/
+theorem rsi_live_range (M : MgrSpec K) (p : Nat) (hp : 1 ≤ p) (nm input : String) (fld : Candle K → Num K)
+    (n : Nat) (hn : RsiNames nm) (hk : IsKey nm) (hin : NoDot input ∧ input ∈ Candle.attrNames)
+    (hattr : ∀ c : Candle K, c.attr input = some (.num (fld c)))
+    (init : List (Candle K)) (chunks : List (List (Candle K))) (hok : M.Ok (init ++ chunks.flatten))
+    (snap : List (Candle K))
+    (hsnap : candlesOf (runIndicator (mkTop (.rsi (p : Int) input : Kind K) nm n) M.cfg init chunks) = .ok snap) :
+    snap.length = (M.spec (init ++ chunks.flatten)).length ∧
+    ∀ j, j < (M.spec (init ++ chunks.flatten)).length →
+      (j < p → readingByCandle (snap.getD j default) nm = .none) ∧
+      (p ≤ j → ∃ y, readingByCandle (snap.getD j default) nm = .flt y ∧ 0 ≤ y ∧ y ≤ 100) := by
+  obtain ⟨out, hl, hrun, hall⟩ := rsi_series_candles p hp nm input fld n hn hk hin hattr _ (M.spec_plain _ hok)
+  have h := (rsiTree (F := K) nm n (p : Int) input (by omega) hn hin).live_refines M init chunks hok snap hsnap
+  rw [hrun] at h
+  cases h
+  refine ⟨hl, fun j hj => ?_⟩
+  have h := (hall j hj).1
+  unfold rsiSeries at h
+  exact ⟨fun hjp => by rw [if_pos hjp] at h; exact h,
+    fun hjp => by rw [if_neg (by omega)] at h; obtain ⟨y, hy, _, h0, h1⟩ := h; exact ⟨y, hy, h0, h1⟩⟩
+
+/-- … and the batch run on the base timeframe returns -/
+theorem rsi_run_range (p : Nat) (hp : 1 ≤ p) (nm input : String) (fld : Candle K → Num K) (n : Nat)
+    (hn : RsiNames nm) (hk : IsKey nm) (hin : NoDot input ∧ input ∈ Candle.attrNames)
+    (hattr : ∀ c : Candle K, c.attr input = some (.num (fld c)))
+    (raw : List (Candle K)) (hraw : ∀ c ∈ raw, Plain c) :
+    ∃ out : List (Candle K),
+      candlesOf (runIndicator (mkTop (.rsi (p : Int) input : Kind K) nm n) {} raw []) = .ok out ∧
+      out.length = raw.length ∧
+      ∀ j, j < raw.length →
+        (j < p → readingByCandle (out.getD j default) nm = .none) ∧
+        (p ≤ j → ∃ y, readingByCandle (out.getD j default) nm = .flt y ∧ 0 ≤ y ∧ y ≤ 100) := by
+  obtain ⟨rows, _, hrun, _⟩ := rsi_series_batch p hp nm input fld n hn hk hin hattr raw hraw
+  have := rsi_live_range (MgrSpec.base K) p hp nm input fld n hn hk hin hattr raw []
+    (show ∀ c ∈ raw ++ ([] : List (List (Candle K))).flatten, Plain c by simpa using hraw) _ hrun
+  exact ⟨_, hrun, by simpa [MgrSpec.base] using this⟩
+
+/-! #### Stochastic ∈ [0, 100] -/
+
+/-- the range statement of one STOCH candle (`own` = the dict under `name`, `k` / `d` = the readings of the
+SMA helpers `name_k` / `name_d`): from index `p − 1` on the own `stoch` field lies in `[0, 100]` EXACTLY; from
+`t_K = p + smoothK − 2` on the stored `%K` lies within its rounding budget `b_K = (j − t_K + 1)·ε₄` of
+`[0, 100]` (and the own `k` field within `ε_n + b_K`); from `t_D = t_K + slow − 1` on the stored `%D` within
+`b_D = (j − t_D + 1)·ε₄ + b_K` (own `d` field: `ε_n + b_D`).  The budgets are there because `%K` / `%D` are
+running SMAs on their STORED (4-decimal) predecessors. -/
+def StochInRange (n p sk sl j : Nat) (own k d : Val K) : Prop :=
+  (p ≤ j + 1 → ∃ y, own.nested "stoch" = .flt y ∧ 0 ≤ y ∧ y ≤ 100) ∧
+  (stochTK p sk ≤ j →
+    (∃ y, k = .flt y ∧ -stochBK K p sk j ≤ y ∧ y ≤ 100 + stochBK K p sk j) ∧
+    (∃ y, own.nested "k" = .flt y ∧ -(eps K n + stochBK K p sk j) ≤ y ∧ y ≤ 100 + (eps K n + stochBK K p sk j))) ∧
+  (stochTD p sk sl ≤ j →
+    (∃ y, d = .flt y ∧ -stochBD K p sk sl j ≤ y ∧ y ≤ 100 + stochBD K p sk sl j) ∧
+    (∃ y, own.nested "d" = .flt y ∧ -(eps K n + stochBD K p sk sl j) ≤ y ∧
+      y ≤ 100 + (eps K n + stochBD K p sk sl j)))
+
+/-- **Stochastic on every candle of every history** (`period ≥ 2`, `slow, smoothK ≥ 1`, input a candle
+field with `low ≤ input ≤ high` on the manager's candles – true for `close`): `StochInRange`. -/
+theorem stoch_live_ranges (M : MgrSpec K) (p sk sl : Nat) (hp : 2 ≤ p) (hsk : 1 ≤ sk) (hsl : 1 ≤ sl)
+    (nm input : String) (fld : Candle K → Num K) (n : Nat) (hn : StochNames nm)
+    (hin : NoDot input ∧ input ∈ Candle.attrNames) (hattr : ∀ c : Candle K, c.attr input = some (.num (fld c)))
+    (init : List (Candle K)) (chunks : List (List (Candle K))) (hok : M.Ok (init ++ chunks.flatten))
+    (hw : ∀ i, i < (M.spec (init ++ chunks.flatten)).length →
+      fieldAt (·.l) (M.spec (init ++ chunks.flatten)) i ≤ fieldAt fld (M.spec (init ++ chunks.flatten)) i ∧
+      fieldAt fld (M.spec (init ++ chunks.flatten)) i ≤ fieldAt (·.h) (M.spec (init ++ chunks.flatten)) i)
+    (snap : List (Candle K))
+    (hsnap : candlesOf (runIndicator (mkTop (.stoch (p : Int) (sl : Int) (sk : Int) input : Kind K) nm n) M.cfg
+      init chunks) = .ok snap) :
+    snap.length = (M.spec (init ++ chunks.flatten)).length ∧
+    ∀ j, j < (M.spec (init ++ chunks.flatten)).length →
+      StochInRange n p sk sl j (readingByCandle (snap.getD j default) nm)
+        (readingByCandle (snap.getD j default) (nm ++ "_k")) (readingByCandle (snap.getD j default) (nm ++ "_d")) := by
+  have hpl := M.spec_plain _ hok
+  have hrun := stoch_series p sk sl hp hsk hsl nm input fld n hn hin hattr _ hpl
+  have h := (stochTree (F := K) nm n (p : Int) (sl : Int) (sk : Int) input (by omega) (by omega) (by omega)
+    hn hin).live_refines M init chunks hok snap hsnap
+  rw [hrun] at h
+  cases h
+  exact ⟨stochDeco_length _ _ _ _ _ _ _, fun j hj =>
+    stoch_ranges n p sk sl _ _ _ hp hsk hsl j (fun i hi => hw i (by omega)) _ _ _ _
+      (stochDeco_ok p sk sl hp hsk hsl nm fld n hn _ hpl j hj)⟩
+
+/-- … and the batch run on the base timeframe RETURNS for every list of raw candles (with `low ≤ input ≤ high`),
+every candle being `StochInRange` -/
+theorem stoch_run_ranges (p sk sl : Nat) (hp : 2 ≤ p) (hsk : 1 ≤ sk) (hsl : 1 ≤ sl) (nm input : String)
+    (fld : Candle K → Num K) (n : Nat) (hn : StochNames nm) (hin : NoDot input ∧ input ∈ Candle.attrNames)
+    (hattr : ∀ c : Candle K, c.attr input = some (.num (fld c)))
+    (raw : List (Candle K)) (hraw : ∀ c ∈ raw, Plain c)
+    (hw : ∀ i, i < raw.length → fieldAt (·.l) raw i ≤ fieldAt fld raw i ∧ fieldAt fld raw i ≤ fieldAt (·.h) raw i) :
+    ∃ out : List (Candle K),
+      candlesOf (runIndicator (mkTop (.stoch (p : Int) (sl : Int) (sk : Int) input : Kind K) nm n) {} raw []) = .ok out ∧
+      out.length = raw.length ∧
+      ∀ j, j < raw.length →
+        StochInRange n p sk sl j (readingByCandle (out.getD j default) nm)
+          (readingByCandle (out.getD j default) (nm ++ "_k")) (readingByCandle (out.getD j default) (nm ++ "_d")) :=
+  ⟨_, stoch_series_batch p sk sl hp hsk hsl nm input fld n hn hin hattr raw hraw, stochDeco_length _ _ _ _ _ _ _,
+    fun j hj => stoch_ranges n p sk sl _ _ _ hp hsk hsl j (fun i hi => hw i (by omega)) _ _ _ _
+      (stochDeco_ok p sk sl hp hsk hsl nm fld n hn _ hraw j hj)⟩
+
+/-! #### Aroon ∈ [0, 100], oscillator ∈ [−100, 100] -/
+
+/-- what a covered leaf kind stores over any manager: the row-major run on the manager's candles -/
+theorem leaf_live (M : MgrSpec K) (k : Kind K) (nm : String) (n : Nat) (hc : Covered nm k)
+    (init : List (Candle K)) (chunks : List (List (Candle K))) (hok : M.Ok (init ++ chunks.flatten))
+    (snap : List (Candle K)) (hsnap : candlesOf (runIndicator (mkTop k nm n) M.cfg init chunks) = .ok snap) :
+    rowMajor (mkTop k nm n) (M.spec (init ++ chunks.flatten)) = .ok snap := by
+  obtain ⟨C⟩ := hc.contract n
+  exact (TreeSpec.ofLeaf _ (hc.isLeaf n) C).live_refines M init chunks hok snap hsnap
+
+/-- **Aroon on every candle of every history** (`period ≥ 1`): the stored dict `vs[j]` is the all-`None`
+dict on candles `0 … p−1`; from the warm-up index `p` on `AROONU`, `AROOND` are floats in `[0, 100]` EXACTLY,
+within `ε` of `100·(p − bars)/p` (`bars` since the most recent highest high / lowest low of the last `p + 1`
+candles), and `AROONOSC` is a float in `[−100, 100]` within `ε` of the exact difference. -/
+theorem aroon_live_range (M : MgrSpec K) (p : Nat) (hp : 1 ≤ p) (nm : String) (n : Nat)
+    (init : List (Candle K)) (chunks : List (List (Candle K))) (hok : M.Ok (init ++ chunks.flatten))
+    (snap : List (Candle K))
+    (hsnap : candlesOf (runIndicator (mkTop (.aroon p : Kind K) nm n) M.cfg init chunks) = .ok snap) :
+    ∃ vs : List (Val K), vs.length = (M.spec (init ++ chunks.flatten)).length ∧
+      snap = deco nm (M.spec (init ++ chunks.flatten)) vs ∧
+      ∀ j, j < (M.spec (init ++ chunks.flatten)).length →
+        (j < p → vs.getD j .none = aroonNone) ∧
+        (p ≤ j → ∃ u d o : K, (vs.getD j .none).nested "AROONU" = .flt u ∧
+          (vs.getD j .none).nested "AROOND" = .flt d ∧ (vs.getD j .none).nested "AROONOSC" = .flt o ∧
+          |u - aroonOf p (hiBar (fieldAt (·.h) (M.spec (init ++ chunks.flatten))) j p)| ≤ eps K n ∧ 0 ≤ u ∧ u ≤ 100 ∧
+          |d - aroonOf p (loBar (fieldAt (·.l) (M.spec (init ++ chunks.flatten))) j p)| ≤ eps K n ∧ 0 ≤ d ∧ d ≤ 100 ∧
+          |o - (aroonOf p (hiBar (fieldAt (·.h) (M.spec (init ++ chunks.flatten))) j p)
+                - aroonOf p (loBar (fieldAt (·.l) (M.spec (init ++ chunks.flatten))) j p))| ≤ eps K n ∧
+          -100 ≤ o ∧ o ≤ 100) := by
+  obtain ⟨vs, hl, hrun, hall⟩ := aroon_series p hp nm n _ (M.spec_plain _ hok)
+  have h := leaf_live M _ nm n (Covered.aroon (p : Int) (by omega)) init chunks hok snap hsnap
+  rw [hrun] at h
+  exact ⟨vs, hl, (Except.ok.inj h).symm, fun j hj => ⟨(hall j hj).1, aroonOK_near p n hp _ _ j _ (hall j hj)⟩⟩
+
+/-- … and the batch run on the base timeframe RETURNS for every list of raw candles, with the same readings -/
+theorem aroon_run_range (p : Nat) (hp : 1 ≤ p) (nm : String) (n : Nat)
+    (raw : List (Candle K)) (hraw : ∀ c ∈ raw, Plain c) :
+    ∃ vs : List (Val K), vs.length = raw.length ∧
+      candlesOf (runIndicator (mkTop (.aroon p : Kind K) nm n) {} raw []) = .ok (deco nm raw vs) ∧
+      ∀ j, j < raw.length →
+        (j < p → vs.getD j .none = aroonNone) ∧
+        (p ≤ j → ∃ u d o : K, (vs.getD j .none).nested "AROONU" = .flt u ∧
+          (vs.getD j .none).nested "AROOND" = .flt d ∧ (vs.getD j .none).nested "AROONOSC" = .flt o ∧
+          |u - aroonOf p (hiBar (fieldAt (·.h) raw) j p)| ≤ eps K n ∧ 0 ≤ u ∧ u ≤ 100 ∧
+          |d - aroonOf p (loBar (fieldAt (·.l) raw) j p)| ≤ eps K n ∧ 0 ≤ d ∧ d ≤ 100 ∧
+          |o - (aroonOf p (hiBar (fieldAt (·.h) raw) j p) - aroonOf p (loBar (fieldAt (·.l) raw) j p))| ≤ eps K n ∧
+          -100 ≤ o ∧ o ≤ 100) := by
+  obtain ⟨vs, hl, _, hrun, hall⟩ := aroon_series_batch p hp nm n raw hraw
+  exact ⟨vs, hl, hrun, fun j hj => ⟨(hall j hj).1, aroonOK_near p n hp _ _ j _ (hall j hj)⟩⟩
+
+/-! #### ADX ∈ [0, 100], DI± ≥ 0 -/
+
+/-- **ADX on every candle of every history** (`period, period_signal ≥ 1`): the own dict is all-`None`
+before the warm-up index `p`; on EVERY candle its `ADX` field (read through the dotted name, as users do) is
+`None` or a float in `[0, 100]` EXACTLY (first value at `p + period_signal − 1`), `DM_Plus` / `DM_Neg` are
+`None` or non-negative floats, the `<name>_dx` helper reading is `None` or in `[0, 100]`, and the `<name>_atr`
+helper reading is non-negative.  (An upper bound `DI± ≤ 100` is NOT claimed: it needs ATR ≥ smoothed DM, which
+the separately rounded helper series do not guarantee.) -/
+theorem adx_live_ranges (M : MgrSpec K) (nm : String) (n p sg : Nat) (hp : 1 ≤ p) (hg : 1 ≤ sg) (hn : AdxNames nm)
+    (init : List (Candle K)) (chunks : List (List (Candle K))) (hok : M.Ok (init ++ chunks.flatten))
+    (snap : List (Candle K))
+    (hsnap : candlesOf (runIndicator (mkTop (.adx (p : Int) (sg : Int) : Kind K) nm n) M.cfg init chunks) = .ok snap) :
+    snap.length = (M.spec (init ++ chunks.flatten)).length ∧
+    ∀ j, j < (M.spec (init ++ chunks.flatten)).length →
+      (j < p → readingByCandle (snap.getD j default) nm = adxNone3) ∧
+      FieldIn 0 100 (readingByCandle (snap.getD j default) (nm ++ "." ++ "ADX")) ∧
+      FieldNonneg (readingByCandle (snap.getD j default) (nm ++ "." ++ "DM_Plus")) ∧
+      FieldNonneg (readingByCandle (snap.getD j default) (nm ++ "." ++ "DM_Neg")) ∧
+      FieldIn 0 100 (readingByCandle (snap.getD j default) (nm ++ "_dx")) ∧
+      (∀ y, readingByCandle (snap.getD j default) (nm ++ "_atr") = .flt y → 0 ≤ y) := by
+  obtain ⟨out, hrun, hl, hall⟩ := adx_series_readings nm n p sg hp hg hn _ (M.spec_plain _ hok)
+  have h := (adxTreeN (K := K) nm n p sg hp hg hn).live_refines M init chunks hok snap hsnap
+  rw [hrun] at h
+  cases h
+  refine ⟨hl, fun j hj => ?_⟩
+  obtain ⟨_, _, h3, _, _, _, _, _, _, _, h11, _, h13, h14, h15, h16, _⟩ := hall j hj
+  exact ⟨h13, h14, h15, h16, h11, h3.2⟩
+
+/-- … and the batch run on the base timeframe RETURNS for every list of raw candles, with the same ranges -/
+theorem adx_run_ranges (nm : String) (n p sg : Nat) (hp : 1 ≤ p) (hg : 1 ≤ sg) (hn : AdxNames nm)
+    (raw : List (Candle K)) (hraw : ∀ c ∈ raw, Plain c) :
+    ∃ out : List (Candle K),
+      candlesOf (runIndicator (mkTop (.adx (p : Int) (sg : Int) : Kind K) nm n) {} raw []) = .ok out ∧
+      out.length = raw.length ∧
+      ∀ j, j < raw.length →
+        (j < p → readingByCandle (out.getD j default) nm = adxNone3) ∧
+        FieldIn 0 100 (readingByCandle (out.getD j default) (nm ++ "." ++ "ADX")) ∧
+        FieldNonneg (readingByCandle (out.getD j default) (nm ++ "." ++ "DM_Plus")) ∧
+        FieldNonneg (readingByCandle (out.getD j default) (nm ++ "." ++ "DM_Neg")) ∧
+        FieldIn 0 100 (readingByCandle (out.getD j default) (nm ++ "_dx")) ∧
+        (∀ y, readingByCandle (out.getD j default) (nm ++ "_atr") = .flt y → 0 ≤ y) := by
+  have hrun := adx_batch nm n p sg hp hg hn raw hraw
+  have := adx_live_ranges (MgrSpec.base K) nm n p sg hp hg hn raw []
+    (show ∀ c ∈ raw ++ ([] : List (List (Candle K))).flatten, Plain c by simpa using hraw) _ hrun
+  exact ⟨_, hrun, by simpa [MgrSpec.base] using this⟩
+
+/-! #### TSI ∈ [−100, 100] -/
+
+/-- **TSI on every candle of every history** (`period, smooth_period ≥ 1`, input a candle field): the own
+reading is `None` before the TRUE warm-up index `p + s − 1`; from there on, with `S`, `A` the STORED
+(4-decimal) `<name>_second` / `<name>_abs_second` readings and `y` the own reading: `0 ≤ A`,
+`|S| ≤ A + 2β` (`β = tsiChainBudget = ε₄/a_s + ε₄/a_p`), `y = 0` when `A = 0` and otherwise
+`|y| ≤ 100 + 200·β/A + ε_n`; `−100 ≤ y ≤ 100` EXACTLY whenever `|S| ≤ A`, which holds for every rounding with
+`RoundNegLe : −round x ≤ round (−x)` (Python's odd `round`, the ℚ instance `roundNegLe_rat`) – this law is
+NOT a consequence of `LawfulPyF` (round-half-down violates it and breaks the range: see `RoundNegLe`). -/
+theorem tsi_live_range (M : MgrSpec K) (nm : String) (n p s : Nat) (input : String) (fld : Candle K → Num K)
+    (hp : 1 ≤ p) (hs : 1 ≤ s) (hn : TsiNames nm) (hin : NoDot input ∧ input ∈ Candle.attrNames)
+    (hattr : ∀ c : Candle K, c.attr input = some (.num (fld c)))
+    (init : List (Candle K)) (chunks : List (List (Candle K))) (hok : M.Ok (init ++ chunks.flatten))
+    (snap : List (Candle K))
+    (hsnap : candlesOf (runIndicator (mkTop (.tsi (p : Int) (s : Int) input : Kind K) nm n) M.cfg init chunks)
+      = .ok snap) :
+    snap.length = (M.spec (init ++ chunks.flatten)).length ∧
+    ∀ j, j < (M.spec (init ++ chunks.flatten)).length →
+      (j + 1 < p + s → readingByCandle (snap.getD j default) nm = .none) ∧
+      (p + s ≤ j + 1 → ∃ S A y : K,
+        readingByCandle (snap.getD j default) (nm ++ "_second") = .flt S ∧
+        readingByCandle (snap.getD j default) (nm ++ "_abs_second") = .flt A ∧
+        readingByCandle (snap.getD j default) nm = .flt y ∧ 0 ≤ A ∧
+        |S| ≤ A + 2 * tsiChainBudget (K := K) p s ∧
+        (A = 0 → y = 0) ∧
+        (A ≠ 0 → |y| ≤ 100 + 200 * tsiChainBudget (K := K) p s / A + eps K n) ∧
+        (|S| ≤ A → -100 ≤ y ∧ y ≤ 100) ∧
+        (RoundNegLe K defaultRound → -100 ≤ y ∧ y ≤ 100)) := by
+  obtain ⟨out, hrun, hl, hall⟩ := tsi_series_readings nm n p s input fld hp hs hn hin hattr _ (M.spec_plain _ hok)
+  have h := (tsiTreeN (K := K) nm n p s input hp hs hn hin).live_refines M init chunks hok snap hsnap
+  rw [hrun] at h
+  cases h
+  refine ⟨hl, fun j hj => ?_⟩
+  obtain ⟨_, _, _, _, _, _, _, _, _, h10, h11⟩ := hall j hj
+  refine ⟨h10.1, fun hj' => ?_⟩
+  obtain ⟨S, A, y, e1, e2, e3, a0, _, b1, b2, b3, b4, b5⟩ := h11 hj'
+  exact ⟨S, A, y, e1, e2, e3, a0, b1, b3, b4, b5, fun hodd => b5 (b2 hodd)⟩
+
+/-- … and the batch run on the base timeframe RETURNS for every list of raw candles, with the same bounds -/
+theorem tsi_run_range (nm : String) (n p s : Nat) (input : String) (fld : Candle K → Num K)
+    (hp : 1 ≤ p) (hs : 1 ≤ s) (hn : TsiNames nm) (hin : NoDot input ∧ input ∈ Candle.attrNames)
+    (hattr : ∀ c : Candle K, c.attr input = some (.num (fld c)))
+    (raw : List (Candle K)) (hraw : ∀ c ∈ raw, Plain c) :
+    ∃ out : List (Candle K),
+      candlesOf (runIndicator (mkTop (.tsi (p : Int) (s : Int) input : Kind K) nm n) {} raw []) = .ok out ∧
+      out.length = raw.length ∧
+      ∀ j, j < raw.length →
+        (j + 1 < p + s → readingByCandle (out.getD j default) nm = .none) ∧
+        (p + s ≤ j + 1 → ∃ S A y : K,
+          readingByCandle (out.getD j default) (nm ++ "_second") = .flt S ∧
+          readingByCandle (out.getD j default) (nm ++ "_abs_second") = .flt A ∧
+          readingByCandle (out.getD j default) nm = .flt y ∧ 0 ≤ A ∧
+          |S| ≤ A + 2 * tsiChainBudget (K := K) p s ∧
+          (A = 0 → y = 0) ∧
+          (A ≠ 0 → |y| ≤ 100 + 200 * tsiChainBudget (K := K) p s / A + eps K n) ∧
+          (|S| ≤ A → -100 ≤ y ∧ y ≤ 100) ∧
+          (RoundNegLe K defaultRound → -100 ≤ y ∧ y ≤ 100)) := by
+  have hrun := tsi_batch nm n p s input fld hp hs hn hin hattr raw hraw
+  have := tsi_live_range (MgrSpec.base K) nm n p s input fld hp hs hn hin hattr raw []
+    (show ∀ c ∈ raw ++ ([] : List (List (Candle K))).flatten, Plain c by simpa using hraw) _ hrun
+  exact ⟨_, hrun, by simpa [MgrSpec.base] using this⟩
+
+/-! #### ATR ≥ 0, TR ≥ 0, σ ≥ 0 -/
+
+/-- **ATR ≥ 0 on every candle of every history** (`period ≥ 1`): the own reading is `None` on candles
+`0 … p−1` – the TRUE warm-up index is `p`, not `p − 1`: the `<name>_TR` helper has no reading on candle 0 –
+and from `p` on a non-negative float; the helper reading is `None` on candle 0 and afterwards a non-negative
+number (the true range rounded to 4 decimals, an int for int prices). -/
+theorem atr_live_nonneg (M : MgrSpec K) (p : Nat) (hp : 1 ≤ p) (nm : String) (n : Nat) (hk : IsKey nm)
+    (hn : AtrNames nm) (init : List (Candle K)) (chunks : List (List (Candle K)))
+    (hok : M.Ok (init ++ chunks.flatten)) (snap : List (Candle K))
+    (hsnap : candlesOf (runIndicator (mkTop (.atr (p : Int)) nm n) M.cfg init chunks) = .ok snap) :
+    snap.length = (M.spec (init ++ chunks.flatten)).length ∧
+    ∀ j, j < (M.spec (init ++ chunks.flatten)).length →
+      (j < p → readingByCandle (snap.getD j default) nm = .none) ∧
+      (p ≤ j → ∃ y, readingByCandle (snap.getD j default) nm = .flt y ∧ 0 ≤ y) ∧
+      (j = 0 → readingByCandle (snap.getD j default) (nm ++ "_TR") = .none) ∧
+      (1 ≤ j → ∃ t : Num K, readingByCandle (snap.getD j default) (nm ++ "_TR") = .num t ∧ 0 ≤ t.toF) := by
+  obtain ⟨out, h1, h2, h3⟩ := atr_series_readings p hp nm n hk hn _ (M.spec_plain _ hok)
+  have h := (atrTree nm n (p : Int) (by omega) hn).live_refines M init chunks hok snap hsnap
+  rw [h1] at h
+  cases h
+  refine ⟨h2, fun j hj => ?_⟩
+  obtain ⟨_, e2, _, e4⟩ := h3 j hj
+  refine ⟨e4.1, fun hjp => ?_, fun h0 => ?_, fun h1 => ?_⟩
+  · obtain ⟨y, hy, _, h0⟩ := e4.2 hjp
+    exact ⟨y, hy, h0⟩
+  · rw [e2]; unfold trStored; rw [if_pos h0]
+  · rw [e2]; unfold trStored; rw [if_neg (by omega)]
+    exact ⟨_, rfl, trS_nonneg _ j⟩
+
+/-- … and the batch run on the base timeframe RETURNS for every list of raw candles, with the same signs -/
+theorem atr_run_nonneg (p : Nat) (hp : 1 ≤ p) (nm : String) (n : Nat) (hk : IsKey nm) (hn : AtrNames nm)
+    (raw : List (Candle K)) (hraw : ∀ c ∈ raw, Plain c) :
+    ∃ out : List (Candle K),
+      candlesOf (runIndicator (mkTop (.atr (p : Int)) nm n) {} raw []) = .ok out ∧
+      out.length = raw.length ∧
+      ∀ j, j < raw.length →
+        (j < p → readingByCandle (out.getD j default) nm = .none) ∧
+        (p ≤ j → ∃ y, readingByCandle (out.getD j default) nm = .flt y ∧ 0 ≤ y) ∧
+        (j = 0 → readingByCandle (out.getD j default) (nm ++ "_TR") = .none) ∧
+        (1 ≤ j → ∃ t : Num K, readingByCandle (out.getD j default) (nm ++ "_TR") = .num t ∧ 0 ≤ t.toF) := by
+  obtain ⟨vs, _, hrun, _⟩ := atr_batch p hp nm n hk hn raw hraw
+  have := atr_live_nonneg (MgrSpec.base K) p hp nm n hk hn raw []
+    (show ∀ c ∈ raw ++ ([] : List (List (Candle K))).flatten, Plain c by simpa using hraw) _ hrun
+  exact ⟨_, hrun, by simpa [MgrSpec.base] using this⟩
+
+/-- what `SdCandleOK` says about the sign: `None` before the warm-up index, then a non-negative float -/
+theorem sdCandle_nonneg {p n : Nat} {nm : String} {x : Nat → K} {j : Nat} {c : Candle K}
+    (h : SdCandleOK p n nm x j c) :
+    (j < p → readingByCandle c nm = .none) ∧ (p ≤ j → ∃ y, readingByCandle c nm = .flt y ∧ 0 ≤ y) := by
+  have hs := h.1
+  unfold stdevSeries at hs
+  refine ⟨fun hjp => by rw [if_pos hjp] at hs; exact hs, fun hjp => ?_⟩
+  rw [if_neg (by omega)] at hs
+  obtain ⟨y, hy, _, h0⟩ := hs
+  exact ⟨y, hy, h0⟩
+
+/-- **σ ≥ 0 on every candle of every history** (`period ≥ 1`, input a candle field; `sqrt ≥ 0` on
+non-negative arguments is all that is used of `sqrt`): the own reading is `None` on candles `0 … p−1` – the
+TRUE warm-up index is `p`: the library waits for `p + 1` inputs – and from `p` on a non-negative float. -/
+theorem stdev_live_nonneg [NonnegSqrt K] (M : MgrSpec K) (p : Nat) (hp : 1 ≤ p) (nm input : String)
+    (fld : Candle K → Num K) (n : Nat) (hn : SdNames nm) (hin : NoDot input ∧ input ∈ Candle.attrNames)
+    (hattr : ∀ c : Candle K, c.attr input = some (.num (fld c)))
+    (init : List (Candle K)) (chunks : List (List (Candle K))) (hok : M.Ok (init ++ chunks.flatten))
+    (snap : List (Candle K))
+    (hsnap : candlesOf (runIndicator (mkTop (.stdev (p : Int) input : Kind K) nm n) M.cfg init chunks) = .ok snap) :
+    snap.length = (M.spec (init ++ chunks.flatten)).length ∧
+    ∀ j, j < (M.spec (init ++ chunks.flatten)).length →
+      (j < p → readingByCandle (snap.getD j default) nm = .none) ∧
+      (p ≤ j → ∃ y, readingByCandle (snap.getD j default) nm = .flt y ∧ 0 ≤ y) := by
+  obtain ⟨out, hl, hrun, hall⟩ := stdev_series_candles p hp nm input fld n hn hin hattr _ (M.spec_plain _ hok)
+  have h := (stdevTree (F := K) nm n (p : Int) input (by omega) hin).live_refines M init chunks hok snap hsnap
+  rw [hrun] at h
+  cases h
+  exact ⟨hl, fun j hj => sdCandle_nonneg (hall j hj)⟩
+
+/-- … and the batch run on the base timeframe RETURNS for every list of raw candles, with the same sign -/
+theorem stdev_run_nonneg [NonnegSqrt K] (p : Nat) (hp : 1 ≤ p) (nm input : String) (fld : Candle K → Num K)
+    (n : Nat) (hn : SdNames nm) (hin : NoDot input ∧ input ∈ Candle.attrNames)
+    (hattr : ∀ c : Candle K, c.attr input = some (.num (fld c)))
+    (raw : List (Candle K)) (hraw : ∀ c ∈ raw, Plain c) :
+    ∃ out : List (Candle K),
+      candlesOf (runIndicator (mkTop (.stdev (p : Int) input : Kind K) nm n) {} raw []) = .ok out ∧
+      out.length = raw.length ∧
+      ∀ j, j < raw.length →
+        (j < p → readingByCandle (out.getD j default) nm = .none) ∧
+        (p ≤ j → ∃ y, readingByCandle (out.getD j default) nm = .flt y ∧ 0 ≤ y) := by
+  obtain ⟨rows, _, hrun, _⟩ := stdev_series_batch p hp nm input fld n hn hin hattr raw hraw
+  obtain ⟨hl, hall⟩ := stdev_batch_readings p hp nm input fld n hn hin hattr raw hraw _ hrun
+  exact ⟨_, hrun, hl, fun j hj => sdCandle_nonneg (hall j hj)⟩
+
+/-! #### band ordering: Bollinger, Keltner, Donchian, HighestLowest -/
+
+/-- what `BbCandleOK` says about order and sign -/
+theorem bbCandle_order {p n : Nat} {nm : String} {x : Nat → K} {j : Nat} {c : Candle K}
+    (h : BbCandleOK p n nm x j c) :
+    (j < p → readingByCandle c nm = bbNoneDict) ∧
+    (p ≤ j → ∃ lo mid up : K, readingByCandle c nm = bbDict lo mid up ∧ lo ≤ mid ∧ mid ≤ up) ∧
+    (∀ y, readingByCandle c (nm ++ "_STDEV") = .flt y → 0 ≤ y) := by
+  obtain ⟨h1, h2, _⟩ := h
+  have hs := h2.1
+  unfold bbSeries at h1
+  unfold stdevSeries at hs
+  refine ⟨fun hjp => by rw [if_pos hjp] at h1; exact h1, fun hjp => ?_, fun y hy => ?_⟩
+  · rw [if_neg (by omega)] at h1
+    obtain ⟨lo, mid, up, hv, o1, o2, _⟩ := h1
+    exact ⟨lo, mid, up, hv, o1, o2⟩
+  · by_cases hjp : j < p
+    · rw [if_pos hjp] at hs
+      have hs' : readingByCandle c (nm ++ "_STDEV") = Val.none := hs
+      rw [hs'] at hy; cases hy
+    · rw [if_neg hjp] at hs
+      obtain ⟨y', hy', _, h0⟩ := hs
+      rw [hy'] at hy
+      cases hy
+      exact h0
+
+/-- **Bollinger: lower ≤ middle ≤ upper on every candle of every history** (`period ≥ 2`, input a candle
+field): the own dict is `{BBL: None, BBM: None, BBU: None}` on candles `0 … p−1` (the STDEV helper's warm-up
+index is `p`, although the SMA helper already has a value on candle `p − 1`) and from `p` on three floats with
+`BBL ≤ BBM ≤ BBU` EXACTLY (monotone rounding of `m − 2s ≤ m ≤ m + 2s` on the stored helper readings, `s ≥ 0`);
+the stored σ helper reading is non-negative. -/
+theorem bbands_live_order [NonnegSqrt K] (M : MgrSpec K) (p : Nat) (hp : 2 ≤ p) (nm input : String)
+    (fld : Candle K → Num K) (n : Nat) (hk : IsKey nm) (hn : BbNames nm)
+    (hin : NoDot input ∧ input ∈ Candle.attrNames) (hattr : ∀ c : Candle K, c.attr input = some (.num (fld c)))
+    (init : List (Candle K)) (chunks : List (List (Candle K))) (hok : M.Ok (init ++ chunks.flatten))
+    (snap : List (Candle K))
+    (hsnap : candlesOf (runIndicator (mkTop (.bbands (p : Int) input : Kind K) nm n) M.cfg init chunks) = .ok snap) :
+    snap.length = (M.spec (init ++ chunks.flatten)).length ∧
+    ∀ j, j < (M.spec (init ++ chunks.flatten)).length →
+      (j < p → readingByCandle (snap.getD j default) nm = bbNoneDict) ∧
+      (p ≤ j → ∃ lo mid up : K, readingByCandle (snap.getD j default) nm = bbDict lo mid up ∧
+        lo ≤ mid ∧ mid ≤ up) ∧
+      (∀ y, readingByCandle (snap.getD j default) (nm ++ "_STDEV") = .flt y → 0 ≤ y) := by
+  obtain ⟨out, hl, hrun, hall⟩ := bb_series_candles p hp nm input fld n hk hn hin hattr _ (M.spec_plain _ hok)
+  have h := (bbTree (F := K) nm n (p : Int) input (by omega) hn hin).live_refines M init chunks hok snap hsnap
+  rw [hrun] at h
+  cases h
+  exact ⟨hl, fun j hj => bbCandle_order (hall j hj)⟩
+
+/-- … and the batch run on the base timeframe RETURNS for every list of raw candles, with the same order -/
+theorem bbands_run_order [NonnegSqrt K] (p : Nat) (hp : 2 ≤ p) (nm input : String) (fld : Candle K → Num K)
+    (n : Nat) (hk : IsKey nm) (hn : BbNames nm) (hin : NoDot input ∧ input ∈ Candle.attrNames)
+    (hattr : ∀ c : Candle K, c.attr input = some (.num (fld c)))
+    (raw : List (Candle K)) (hraw : ∀ c ∈ raw, Plain c) :
+    ∃ out : List (Candle K),
+      candlesOf (runIndicator (mkTop (.bbands (p : Int) input : Kind K) nm n) {} raw []) = .ok out ∧
+      out.length = raw.length ∧
+      ∀ j, j < raw.length →
+        (j < p → readingByCandle (out.getD j default) nm = bbNoneDict) ∧
+        (p ≤ j → ∃ lo mid up : K, readingByCandle (out.getD j default) nm = bbDict lo mid up ∧
+          lo ≤ mid ∧ mid ≤ up) ∧
+        (∀ y, readingByCandle (out.getD j default) (nm ++ "_STDEV") = .flt y → 0 ≤ y) := by
+  obtain ⟨rows, _, hrun, _⟩ := bb_series_batch p hp nm input fld n hn hin hattr raw hraw
+  obtain ⟨hl, hall⟩ := bb_batch_readings p hp nm input fld n hk hn hin hattr raw hraw _ hrun
+  exact ⟨_, hrun, hl, fun j hj => bbCandle_order (hall j hj)⟩
+
+/-- what `KcSeriesOK` says about order and sign (non-negative multiplier) -/
+theorem kcSeries_order {p n : Nat} {mult : Num K} {nm : String} {fld : Candle K → Num K}
+    {raw out : List (Candle K)} (h : KcSeriesOK p n mult nm fld raw out) (hm : 0 ≤ mult.toF) :
+    out.length = raw.length ∧
+    ∀ j, j < raw.length →
+      (j < p → readingByCandle (out.getD j default) nm = kcNoneDict) ∧
+      (p ≤ j → ∃ l b u : K, readingByCandle (out.getD j default) nm
+          = .dict [("lower", .num (.flt l)), ("band", .num (.flt b)), ("upper", .num (.flt u))] ∧
+        l ≤ b ∧ b ≤ u) ∧
+      (∀ y, readingByCandle (out.getD j default) (nm ++ "_ATR") = .flt y → 0 ≤ y) := by
+  refine ⟨h.1, fun j hj => ?_⟩
+  obtain ⟨_, _, h3, _, _, _, h7, _⟩ := h.2 j hj
+  unfold kcSeries at h7
+  refine ⟨fun hjp => by rw [if_pos hjp] at h7; exact h7, fun hjp => ?_, h3.2⟩
+  rw [if_neg (by omega)] at h7
+  obtain ⟨l, b, u, hv, _, _, _, ho⟩ := h7
+  exact ⟨l, b, u, hv, ho hm⟩
+
+/-- **Keltner: lower ≤ band ≤ upper on every candle of every history** (`period ≥ 2`, input a candle
+field, multiplier `≥ 0`): the own dict is `{lower: None, band: None, upper: None}` on candles `0 … p−1` (the
+ATR helper's warm-up index is `p`; the EMA helper already has a value on candle `p − 1`) and from `p` on three
+floats with `lower ≤ band ≤ upper` EXACTLY; the stored ATR helper reading is non-negative. -/
+theorem kc_live_order (M : MgrSpec K) (p : Nat) (hp : 2 ≤ p) (nm input : String) (fld : Candle K → Num K)
+    (n : Nat) (mult : Num K) (hk : IsKey nm) (hn : KcNames nm) (hin : NoDot input ∧ input ∈ Candle.attrNames)
+    (hattr : ∀ c : Candle K, c.attr input = some (.num (fld c))) (hm : 0 ≤ mult.toF)
+    (init : List (Candle K)) (chunks : List (List (Candle K))) (hok : M.Ok (init ++ chunks.flatten))
+    (snap : List (Candle K))
+    (hsnap : candlesOf (runIndicator (mkTop (.kc (p : Int) input mult : Kind K) nm n) M.cfg init chunks) = .ok snap) :
+    snap.length = (M.spec (init ++ chunks.flatten)).length ∧
+    ∀ j, j < (M.spec (init ++ chunks.flatten)).length →
+      (j < p → readingByCandle (snap.getD j default) nm = kcNoneDict) ∧
+      (p ≤ j → ∃ l b u : K, readingByCandle (snap.getD j default) nm
+          = .dict [("lower", .num (.flt l)), ("band", .num (.flt b)), ("upper", .num (.flt u))] ∧
+        l ≤ b ∧ b ≤ u) ∧
+      (∀ y, readingByCandle (snap.getD j default) (nm ++ "_ATR") = .flt y → 0 ≤ y) := by
+  obtain ⟨out, hrun, hok'⟩ := kc_series_readings p hp nm input fld n mult hk hn hin hattr _ (M.spec_plain _ hok)
+  have h := (kcTree (F := K) nm n (p : Int) input mult (by omega) hn hin).live_refines M init chunks hok snap hsnap
+  rw [hrun] at h
+  cases h
+  exact kcSeries_order hok' hm
+
+/-- … and the batch run on the base timeframe RETURNS for every list of raw candles, with the same order -/
+theorem kc_run_order (p : Nat) (hp : 2 ≤ p) (nm input : String) (fld : Candle K → Num K) (n : Nat)
+    (mult : Num K) (hk : IsKey nm) (hn : KcNames nm) (hin : NoDot input ∧ input ∈ Candle.attrNames)
+    (hattr : ∀ c : Candle K, c.attr input = some (.num (fld c))) (hm : 0 ≤ mult.toF)
+    (raw : List (Candle K)) (hraw : ∀ c ∈ raw, Plain c) :
+    ∃ out : List (Candle K),
+      candlesOf (runIndicator (mkTop (.kc (p : Int) input mult : Kind K) nm n) {} raw []) = .ok out ∧
+      out.length = raw.length ∧
+      ∀ j, j < raw.length →
+        (j < p → readingByCandle (out.getD j default) nm = kcNoneDict) ∧
+        (p ≤ j → ∃ l b u : K, readingByCandle (out.getD j default) nm
+            = .dict [("lower", .num (.flt l)), ("band", .num (.flt b)), ("upper", .num (.flt u))] ∧
+          l ≤ b ∧ b ≤ u) ∧
+        (∀ y, readingByCandle (out.getD j default) (nm ++ "_ATR") = .flt y → 0 ≤ y) := by
+  obtain ⟨out, hrun, hok⟩ := kc_batch p hp nm input fld n mult hk hn hin hattr raw hraw
+  exact ⟨out, hrun, kcSeries_order hok hm⟩
+
+/-- well-formed candles (`low ≤ high`) as a statement about the two field series (also beyond the end of the
+list, where both read the default candle) -/
+theorem fieldAt_wf (raw : List (Candle K)) (hwf : ∀ c ∈ raw, c.l.toF ≤ c.h.toF) (k : Nat) :
+    fieldAt (·.l) raw k ≤ fieldAt (·.h) raw k := by
+  unfold fieldAt
+  by_cases hk : k < raw.length
+  · apply hwf
+    rw [List.getD_eq_getElem?_getD, List.getElem?_eq_getElem hk]; exact List.getElem_mem _
+  · rw [List.getD_eq_getElem?_getD, List.getElem?_eq_none (by omega)]
+    exact le_refl _
+
+/-- what `DcOK` says about the STORED fields on well-formed candles: ordered, and enclosing the candle's own
+low and high rounded the same way – exactly, no slack -/
+theorem dcOK_order (p n : Nat) (raw : List (Candle K)) (hwf : ∀ c ∈ raw, c.l.toF ≤ c.h.toF) (j : Nat) (v : Val K)
+    (h : DcOK p n (numAt (·.h) raw) (numAt (·.l) raw) j v) (hjp : p ≤ j + 1) :
+    ∃ (lo up : Num K) (mid : K),
+      v = .dict [("DCL", .num lo), ("DCM", .num (.flt mid)), ("DCU", .num up)] ∧
+      lo.toF ≤ mid ∧ mid ≤ up.toF ∧
+      lo.toF ≤ ((numAt (·.l) raw j).roundBy n).toF ∧ ((numAt (·.h) raw j).roundBy n).toF ≤ up.toF := by
+  obtain ⟨kl, kh, _, _, hv, e1, e2⟩ := h.2 hjp
+  have hLH : (numAt (·.l) raw kl).toF ≤ (numAt (·.h) raw kh).toF := by
+    rw [e1, e2]; exact winMin_le_winMax _ _ (fieldAt_wf raw hwf) j (p - 1)
+  have hL : (numAt (·.l) raw kl).toF ≤ (numAt (·.l) raw j).toF := by
+    rw [e1]; exact winMin_self (fun k => (numAt (·.l) raw k).toF) j (p - 1)
+  have hH : (numAt (·.h) raw j).toF ≤ (numAt (·.h) raw kh).toF := by
+    rw [e2]; exact winMax_self (fun k => (numAt (·.h) raw k).toF) j (p - 1)
+  refine ⟨_, _, _, hv, ?_, ?_, ?_, ?_⟩
+  · rw [stored_num]; exact LawfulPyF.round_mono n (by linarith)
+  · rw [stored_num]; exact LawfulPyF.round_mono n (by linarith)
+  · rw [stored_num, stored_num]; exact LawfulPyF.round_mono n hL
+  · rw [stored_num, stored_num]; exact LawfulPyF.round_mono n hH
+
+/-- **Donchian on every candle of every history** (`period ≥ 2`, well-formed candles `low ≤ high`): the
+stored dict `vs[j]` is `{DCL: None, DCM: None, DCU: None}` on candles `0 … p−2`; from the warm-up index `p − 1`
+on it is `{DCL: lo, DCM: mid, DCU: up}` with `lo ≤ mid ≤ up` EXACTLY on the stored values, the stored channel
+encloses the candle's own (equally rounded) low and high, and each field is within `ε` of the lowest low /
+highest high of the last `p` candles / their mean (`DcOK` + `dcOK_near`; ints are stored as ints, unrounded). -/
+theorem donchian_live_order (M : MgrSpec K) (p : Nat) (hp : 2 ≤ p) (nm : String) (n : Nat) (hn : DcNames nm)
+    (init : List (Candle K)) (chunks : List (List (Candle K))) (hok : M.Ok (init ++ chunks.flatten))
+    (hwf : ∀ c ∈ M.spec (init ++ chunks.flatten), c.l.toF ≤ c.h.toF) (snap : List (Candle K))
+    (hsnap : candlesOf (runIndicator (mkTop (.donchian p : Kind K) nm n) M.cfg init chunks) = .ok snap) :
+    ∃ vs : List (Val K), vs.length = (M.spec (init ++ chunks.flatten)).length ∧
+      snap = deco nm (M.spec (init ++ chunks.flatten)) vs ∧
+      ∀ j, j < (M.spec (init ++ chunks.flatten)).length →
+        (j + 1 < p → vs.getD j .none = dcNone) ∧
+        (p ≤ j + 1 →
+          (∃ (lo up : Num K) (mid : K),
+            vs.getD j .none = .dict [("DCL", .num lo), ("DCM", .num (.flt mid)), ("DCU", .num up)] ∧
+            lo.toF ≤ mid ∧ mid ≤ up.toF ∧
+            lo.toF ≤ ((numAt (·.l) (M.spec (init ++ chunks.flatten)) j).roundBy n).toF ∧
+            ((numAt (·.h) (M.spec (init ++ chunks.flatten)) j).roundBy n).toF ≤ up.toF) ∧
+          NumNear n (winMin (fieldAt (·.l) (M.spec (init ++ chunks.flatten))) j (p - 1)) ((vs.getD j .none).nested "DCL") ∧
+          NumNear n (winMax (fieldAt (·.h) (M.spec (init ++ chunks.flatten))) j (p - 1)) ((vs.getD j .none).nested "DCU") ∧
+          NumNear n ((winMax (fieldAt (·.h) (M.spec (init ++ chunks.flatten))) j (p - 1)
+              + winMin (fieldAt (·.l) (M.spec (init ++ chunks.flatten))) j (p - 1)) / 2)
+            ((vs.getD j .none).nested "DCM")) := by
+  obtain ⟨vs, hl, hrun, hall⟩ := donchian_series p hp nm n hn _ (M.spec_plain _ hok)
+  have h := leaf_live M _ nm n (Covered.donchian (p : Int) (by omega)) init chunks hok snap hsnap
+  rw [hrun] at h
+  refine ⟨vs, hl, (Except.ok.inj h).symm, fun j hj => ⟨(hall j hj).1, fun hjp => ?_⟩⟩
+  obtain ⟨n1, n2, n3, _⟩ := dcOK_near p n _ _ j _ (hall j hj) hjp
+  exact ⟨dcOK_order p n _ hwf j _ (hall j hj) hjp, n1, n2, n3⟩
+
+/-- … and the batch run on the base timeframe RETURNS for every list of well-formed raw candles, with the
+same order, enclosure and budgets -/
+theorem donchian_run_order (p : Nat) (hp : 2 ≤ p) (nm : String) (n : Nat) (hn : DcNames nm)
+    (raw : List (Candle K)) (hraw : ∀ c ∈ raw, Plain c) (hwf : ∀ c ∈ raw, c.l.toF ≤ c.h.toF) :
+    ∃ vs : List (Val K), vs.length = raw.length ∧
+      candlesOf (runIndicator (mkTop (.donchian p : Kind K) nm n) {} raw []) = .ok (deco nm raw vs) ∧
+      ∀ j, j < raw.length →
+        (j + 1 < p → vs.getD j .none = dcNone) ∧
+        (p ≤ j + 1 →
+          (∃ (lo up : Num K) (mid : K),
+            vs.getD j .none = .dict [("DCL", .num lo), ("DCM", .num (.flt mid)), ("DCU", .num up)] ∧
+            lo.toF ≤ mid ∧ mid ≤ up.toF ∧
+            lo.toF ≤ ((numAt (·.l) raw j).roundBy n).toF ∧ ((numAt (·.h) raw j).roundBy n).toF ≤ up.toF) ∧
+          NumNear n (winMin (fieldAt (·.l) raw) j (p - 1)) ((vs.getD j .none).nested "DCL") ∧
+          NumNear n (winMax (fieldAt (·.h) raw) j (p - 1)) ((vs.getD j .none).nested "DCU") ∧
+          NumNear n ((winMax (fieldAt (·.h) raw) j (p - 1) + winMin (fieldAt (·.l) raw) j (p - 1)) / 2)
+            ((vs.getD j .none).nested "DCM")) := by
+  obtain ⟨vs, hl, _, hrun, hall⟩ := donchian_series_batch p hp nm n hn raw hraw
+  refine ⟨vs, hl, hrun, fun j hj => ⟨(hall j hj).1, fun hjp => ?_⟩⟩
+  obtain ⟨n1, n2, n3, _⟩ := dcOK_near p n _ _ j _ (hall j hj) hjp
+  exact ⟨dcOK_order p n _ hwf j _ (hall j hj) hjp, n1, n2, n3⟩
+
+/-- **HighestLowest on every candle of every history** (`period ≥ 1`; no warm-up: readings from candle 0):
+`low` / `high` are numbers within `ε` of the lowest low / highest high of the window `max(j−p, 0) … j`
+(exactly equal for int prices), and that window encloses the candle's own low and high. -/
+theorem hl_live_enclose (M : MgrSpec K) (p : Nat) (hp : 1 ≤ p) (nm : String) (n : Nat)
+    (init : List (Candle K)) (chunks : List (List (Candle K))) (hok : M.Ok (init ++ chunks.flatten))
+    (snap : List (Candle K))
+    (hsnap : candlesOf (runIndicator (mkTop (.hl p : Kind K) nm n) M.cfg init chunks) = .ok snap) :
+    ∃ vs : List (Val K), vs.length = (M.spec (init ++ chunks.flatten)).length ∧
+      snap = deco nm (M.spec (init ++ chunks.flatten)) vs ∧
+      ∀ j, j < (M.spec (init ++ chunks.flatten)).length →
+        NumNear n (winMin (fieldAt (·.l) (M.spec (init ++ chunks.flatten))) j p) ((vs.getD j .none).nested "low") ∧
+        NumNear n (winMax (fieldAt (·.h) (M.spec (init ++ chunks.flatten))) j p) ((vs.getD j .none).nested "high") ∧
+        winMin (fieldAt (·.l) (M.spec (init ++ chunks.flatten))) j p ≤ fieldAt (·.l) (M.spec (init ++ chunks.flatten)) j ∧
+        fieldAt (·.h) (M.spec (init ++ chunks.flatten)) j ≤ winMax (fieldAt (·.h) (M.spec (init ++ chunks.flatten))) j p := by
+  obtain ⟨vs, hl, hrun, hall⟩ := hl_series p hp nm n _ (M.spec_plain _ hok)
+  have h := leaf_live M _ nm n (Covered.hl p) init chunks hok snap hsnap
+  rw [hrun] at h
+  exact ⟨vs, hl, (Except.ok.inj h).symm, fun j hj => hlOK_near p n _ _ j _ (hall j hj)⟩
+
+/-- … and the batch run on the base timeframe RETURNS for every list of raw candles, with the same readings -/
+theorem hl_run_enclose (p : Nat) (hp : 1 ≤ p) (nm : String) (n : Nat)
+    (raw : List (Candle K)) (hraw : ∀ c ∈ raw, Plain c) :
+    ∃ vs : List (Val K), vs.length = raw.length ∧
+      candlesOf (runIndicator (mkTop (.hl p : Kind K) nm n) {} raw []) = .ok (deco nm raw vs) ∧
+      ∀ j, j < raw.length →
+        NumNear n (winMin (fieldAt (·.l) raw) j p) ((vs.getD j .none).nested "low") ∧
+        NumNear n (winMax (fieldAt (·.h) raw) j p) ((vs.getD j .none).nested "high") ∧
+        winMin (fieldAt (·.l) raw) j p ≤ fieldAt (·.l) raw j ∧ fieldAt (·.h) raw j ≤ winMax (fieldAt (·.h) raw) j p := by
+  obtain ⟨vs, hl, _, hrun, hall⟩ := hl_series_batch p hp nm n raw hraw
+  exact ⟨vs, hl, hrun, fun j hj => hlOK_near p n _ _ j _ (hall j hj)⟩
+
+/-! #### Supertrend: direction ±1, exactly one of long / short -/
+
+/-- what `StCandleOK` says about the shape of the own reading -/
+theorem stCandle_shape {p n : Nat} {mult : K} {nm : String} {raw : List (Candle K)} {j : Nat} {c : Candle K}
+    (h : StCandleOK p n mult nm raw j c) :
+    (j < p → readingByCandle c nm = stNoneDict) ∧
+    (p ≤ j → ∃ t : Num K,
+      readingByCandle c nm
+        = .dict [("trend", .num t), ("direction", .num (.int 1)), ("long", .num t), ("short", .none)] ∨
+      readingByCandle c nm
+        = .dict [("trend", .num t), ("direction", .num (.int (-1))), ("long", .none), ("short", .num t)]) := by
+  obtain ⟨_, _, _, _, h5, _⟩ := h
+  refine ⟨fun hjp => ?_, fun hjp => ?_⟩
+  · rw [stSeries_none p mult raw j hjp] at h5; exact h5
+  · obtain ⟨s, hs⟩ := stSeries_isSome p mult raw j hjp
+    rw [hs] at h5
+    obtain ⟨U, L, _, _, h | h⟩ := StOwnOK.fields (stSeries_dir p mult raw j s hs) h5
+    · exact ⟨L, Or.inl h.2⟩
+    · exact ⟨U, Or.inr h.2⟩
+
+/-- **Supertrend shape on every candle of every history** (`period ≥ 1`): the own reading is a dict on EVERY
+candle – `{trend: None, direction: 1, long: None, short: None}` before the first ATR (index `p`), and from `p`
+on `direction ∈ {1, −1}`, `trend` = the active band, and exactly one of `long` / `short` is set and equals
+`trend` (the direction of the textbook state machine `stSeries` is ±1 by induction: `stSeries_dir`). -/
+theorem supertrend_live_shape (M : MgrSpec K) (p : Nat) (hp : 1 ≤ p) (nm input : String) (mult : Num K) (n : Nat)
+    (hn : StNames nm) (hk : IsKey nm) (init : List (Candle K)) (chunks : List (List (Candle K)))
+    (hok : M.Ok (init ++ chunks.flatten)) (snap : List (Candle K))
+    (hsnap : candlesOf (runIndicator (mkTop (.supertrend (p : Int) input mult : Kind K) nm n) M.cfg init chunks)
+      = .ok snap) :
+    snap.length = (M.spec (init ++ chunks.flatten)).length ∧
+    ∀ j, j < (M.spec (init ++ chunks.flatten)).length →
+      (j < p → readingByCandle (snap.getD j default) nm = stNoneDict) ∧
+      (p ≤ j → ∃ t : Num K,
+        readingByCandle (snap.getD j default) nm
+          = .dict [("trend", .num t), ("direction", .num (.int 1)), ("long", .num t), ("short", .none)] ∨
+        readingByCandle (snap.getD j default) nm
+          = .dict [("trend", .num t), ("direction", .num (.int (-1))), ("long", .none), ("short", .num t)]) := by
+  obtain ⟨out, hl, hrun, hall⟩ := st_series_candles p hp nm input mult n hn hk _ (M.spec_plain _ hok)
+  have h := (stTree (F := K) nm n (p : Int) input mult (by omega) hn).live_refines M init chunks hok snap hsnap
+  rw [hrun] at h
+  cases h
+  exact ⟨hl, fun j hj => stCandle_shape (hall j hj)⟩
+
+/-- … and the batch run on the base timeframe RETURNS for every list of raw candles, with the same shape -/
+theorem supertrend_run_shape (p : Nat) (hp : 1 ≤ p) (nm input : String) (mult : Num K) (n : Nat)
+    (hn : StNames nm) (hk : IsKey nm) (raw : List (Candle K)) (hraw : ∀ c ∈ raw, Plain c) :
+    ∃ out : List (Candle K),
+      candlesOf (runIndicator (mkTop (.supertrend (p : Int) input mult : Kind K) nm n) {} raw []) = .ok out ∧
+      out.length = raw.length ∧
+      ∀ j, j < raw.length →
+        (j < p → readingByCandle (out.getD j default) nm = stNoneDict) ∧
+        (p ≤ j → ∃ t : Num K,
+          readingByCandle (out.getD j default) nm
+            = .dict [("trend", .num t), ("direction", .num (.int 1)), ("long", .num t), ("short", .none)] ∨
+          readingByCandle (out.getD j default) nm
+            = .dict [("trend", .num t), ("direction", .num (.int (-1))), ("long", .none), ("short", .num t)]) := by
+  obtain ⟨out, hl, hrun, hall⟩ := st_series_batch p hp nm input mult n hn hk raw hraw
+  exact ⟨out, hrun, hl, fun j hj => stCandle_shape (hall j hj)⟩
+
+/-! #### Counter: a non-negative int that grows by one or resets -/
+
+/-- **Counter on every candle of every history on the base timeframe, every float carrier** (input a candle
+field, any counted value): the run RETURNS for every initial list and every append schedule (`chunks = []` is
+the batch run); the reading stored on candle `j` is the Python int `cnt j` with `cnt` = the textbook run length
+`runLen`; `cnt 0 ∈ {0, 1}` (no warm-up) and from each candle to the next the count grows by exactly one or
+resets to 0.  (For an input that can be MISSING the count may also stay: `counter_series_col`,
+`runLen_succ_cases`.) -/
+theorem counter_run_moves {F : Type} [PyF F] (nm input : String) (fld : Candle F → Num F) (cv : Scalar F)
+    (n : Nat) (hk : IsKey nm) (hin : AttrInput input) (hattr : ∀ c : Candle F, c.attr input = some (.num (fld c)))
+    (init : List (Candle F)) (chunks : List (List (Candle F)))
+    (hraw : ∀ c ∈ init ++ chunks.flatten, Plain c) :
+    ∃ (vs : List (Val F)) (cnt : Nat → Nat),
+      cnt = runLen cv (fun i => .num (fld ((init ++ chunks.flatten).getD i default))) ∧
+      vs.length = (init ++ chunks.flatten).length ∧
+      candlesOf (runIndicator (mkTop (.counter input cv) nm n) {} init chunks)
+        = .ok (deco nm (init ++ chunks.flatten) vs) ∧
+      (∀ j, j < (init ++ chunks.flatten).length → vs.getD j .none = .int (cnt j : Int)) ∧
+      (cnt 0 = 0 ∨ cnt 0 = 1) ∧ ∀ j, cnt (j + 1) = cnt j + 1 ∨ cnt (j + 1) = 0 := by
+  obtain ⟨vs, h1, h2, h3⟩ := counter_series_live nm input fld cv n hk hin hattr init chunks hraw
+  refine ⟨vs, _, rfl, h1, h2, h3, ?_, fun j => ?_⟩
+  · show cntStep cv 0 _ = 0 ∨ cntStep cv 0 _ = 1
+    unfold cntStep
+    split_ifs <;> simp
+  · rw [runLen_field_succ]
+    split_ifs <;> simp
+
+/-! ### the property as a closed statement -/
+
+/-- **The RSI instance of C10, through the engine** – this is the statement the former `C10_FULL` made,
+corrected in three places: (1) the engine is run with the fuel the object really passes, `engineCalc ind cs =
+calculate (fuelFor cs + 1) ind cs` (`IndState.calculate_engine`), where the old text had `calculate (fuelFor raw)`;
+(2) the name hypothesis is the one the RSI tree needs, `RsiNames nm` (the helper name `nm ++ "_data"` is an
+ordinary key different from `nm`, and its dotted field names split as expected), not only `IsKey nm`;
+(3) `period ≥ 1` suffices (the old text asked for `≥ 2`).  On every raw stream the engine's `calculate()`
+returns and every stored RSI reading is `None` or a float in `[0, 100]`. -/
+def C10_RSI : Prop :=
   ∀ (K : Type) [Field K] [LinearOrder K] [IsStrictOrderedRing K] [LawfulPyF K]
     (p : Nat) (nm : String) (n : Nat) (raw : List (Candle K)),
-    2 ≤ p → IsKey nm → (∀ c ∈ raw, Plain c) →
-    ∃ out : List (Candle K), calculate (fuelFor raw) (mkTop (.rsi p "close") nm n) raw = .ok out ∧
+    1 ≤ p → IsKey nm → RsiNames nm → (∀ c ∈ raw, Plain c) →
+    ∃ out : List (Candle K), engineCalc (mkTop (.rsi p "close") nm n) raw = .ok out ∧
       ∀ c ∈ out, readingByCandle c nm = .none ∨
         ∃ y : K, readingByCandle c nm = .flt y ∧ 0 ≤ y ∧ y ≤ 100
+
+theorem C10_RSI_holds : C10_RSI := by
+  intro K _ _ _ _ p nm n raw hp hk hn hraw
+  obtain ⟨out, hl, hrun, hall⟩ := rsi_series_candles p hp nm "close" (·.c) n hn hk ⟨noDot_close, by decide⟩
+    (fun _ => rfl) raw hraw
+  have he := ((rsiTree (F := K) nm n (p : Int) "close" (by omega) hn ⟨noDot_close, by decide⟩).engine [] raw []
+    out rfl (by simp) hraw).2 (by simpa using hrun)
+  refine ⟨out, by simpa using he, fun c hc => ?_⟩
+  obtain ⟨j, hj, rfl⟩ := List.mem_iff_getElem.1 hc
+  have h := (hall j (hl ▸ hj)).1
+  have e : out.getD j default = out[j] := by
+    rw [List.getD_eq_getElem?_getD, List.getElem?_eq_getElem hj]; rfl
+  rw [e] at h
+  unfold rsiSeries at h
+  by_cases hjp : j < p
+  · rw [if_pos hjp] at h; exact Or.inl h
+  · rw [if_neg hjp] at h
+    obtain ⟨y, hy, _, h0, h1⟩ := h
+    exact Or.inr ⟨y, hy, h0, h1⟩
+
+/-- **General statement (open), stated for RSI** (the other relations have the same shape).  Beyond what is
+proved above, the property also speaks about
+* inputs that are ANOTHER INDICATOR'S READING (an ordinary key already on the candles, possibly `None` on the
+  first candles – a late-starting input) instead of a candle field,
+* EVERY manager configuration `cfg` – also Heikin-Ashi conversion and `candles_lifespan`, for which there is no
+  `MgrSpec` (the proved `…_live_…` theorems cover the base timeframe, collapsing timeframes and collapsing + gap
+  filling, every append schedule),
+* candles that already carry readings of OTHER indicators (here: none under the tree's own names).
+For every such history that returns, every stored RSI reading is `None` or a float in `[0, 100]`.
+NOT proved.  Also outside: IEEE effects (`K` is an exact ordered field with a lawful decimal rounding – overflow,
+NaN and binary rounding error are not modelled); for TSI the range `[−100, 100]` additionally needs the rounding
+law `RoundNegLe` (true of Python's `round`, not derivable from `LawfulPyF`; without it only
+`|TSI| ≤ 100 + 200·β/abs_second + ε` is proved); for ADX an upper bound `DI± ≤ 100` (needs ATR ≥ smoothed DM across
+separately rounded helper series); and the whole-run forms of the MACD histogram identity and the OBV step
+(`macd_histogram`, `obv_moves` above are per call; the MACD series itself is `C06.macd_series`). -/
+def C10_FULL : Prop :=
+  ∀ (K : Type) [Field K] [LinearOrder K] [IsStrictOrderedRing K] [LawfulPyF K]
+    (p : Nat) (nm input : String) (n : Nat) (cfg : MgrCfg)
+    (init : List (Candle K)) (chunks : List (List (Candle K))) (snap : List (Candle K)),
+    1 ≤ p → IsKey nm → RsiNames nm →
+    (AttrInput input ∨ (IsKey input ∧ input ≠ nm ∧ input ≠ nm ++ "_data")) →
+    (∀ c ∈ init ++ chunks.flatten,
+      dlookup nm c.inds = none ∧ dlookup nm c.subs = none ∧
+      dlookup (nm ++ "_data") c.inds = none ∧ dlookup (nm ++ "_data") c.subs = none ∧
+      (readingByCandle c input = .none ∨ ∃ x : Num K, readingByCandle c input = .num x)) →
+    candlesOf (runIndicator (mkTop (.rsi p input) nm n) cfg init chunks) = .ok snap →
+    ∀ c ∈ snap, readingByCandle c nm = .none ∨
+      ∃ y : K, readingByCandle c nm = .flt y ∧ 0 ≤ y ∧ y ≤ 100
+
+/-! ### non-vacuity of the whole-run theorems: the five demo candles over ℚ
+
+(`C04.demoRaw` = `rsiDemoRaw` = `atrDemoRaw` = `winDemoRaw` = `kcDemoRaw` = `stochDemoRaw` = `macdDemoRaw`:
+highs 12 13 15 16 15, lows 9 10 11 13 15, closes 11 12 14 15 15.)  Every hypothesis of the `…_run_…` theorems is
+discharged for concrete parameters and a concrete consequence is read off; each `…_run_…` theorem is itself the
+instance `M = MgrSpec.base`, `chunks = []` of its `…_live_…` twin with the hypothesis "the history returns"
+discharged. -/
+
+example : ∃ out : List (Candle ℚ),
+    candlesOf (runIndicator (mkTop (.rsi ((3 : Nat) : Int) "close" : Kind ℚ) "RSI_3" 4) {} rsiDemoRaw []) = .ok out ∧
+    readingByCandle (out.getD 2 default) "RSI_3" = .none ∧
+    ∃ y, readingByCandle (out.getD 4 default) "RSI_3" = .flt y ∧ 0 ≤ y ∧ y ≤ 100 := by
+  obtain ⟨out, h1, _, h3⟩ := rsi_run_range 3 (by norm_num) "RSI_3" "close" (·.c) 4 rsiNames_demo (by decide)
+    ⟨noDot_close, by decide⟩ (fun _ => rfl) rsiDemoRaw rsiDemoRaw_plain
+  exact ⟨out, h1, (h3 2 (by decide)).1 (by decide), (h3 4 (by decide)).2 (by decide)⟩
+
+example : C10_RSI := C10_RSI_holds
+
+example : ∃ out : List (Candle ℚ),
+    candlesOf (runIndicator (mkTop (.stoch ((2 : Nat) : Int) ((2 : Nat) : Int) ((2 : Nat) : Int) "close" : Kind ℚ)
+      "STOCH_2" 4) {} stochDemoRaw []) = .ok out ∧
+    ∃ y, (readingByCandle (out.getD 4 default) "STOCH_2").nested "stoch" = .flt y ∧ 0 ≤ y ∧ y ≤ 100 := by
+  obtain ⟨out, h1, _, h3⟩ := stoch_run_ranges 2 2 2 (by norm_num) (by norm_num) (by norm_num) "STOCH_2" "close" (·.c) 4
+    stochNames_demo ⟨noDot_close, by decide⟩ (fun _ => rfl) stochDemoRaw stochDemoRaw_plain
+    (by intro i hi
+        have hi' : i < 5 := hi
+        interval_cases i <;> simp [fieldAt, stochDemoRaw, Demo.mk] <;> norm_num)
+  exact ⟨out, h1, (h3 4 (by decide)).1 (by decide)⟩
+
+example : ∃ vs : List (Val ℚ),
+    candlesOf (runIndicator (mkTop (.aroon ((2 : Nat) : Int) : Kind ℚ) "AROON_2" 4) {} winDemoRaw [])
+      = .ok (deco "AROON_2" winDemoRaw vs) ∧
+    vs.getD 1 .none = aroonNone ∧
+    ∃ u d o : ℚ, (vs.getD 4 .none).nested "AROONU" = .flt u ∧ (vs.getD 4 .none).nested "AROOND" = .flt d ∧
+      (vs.getD 4 .none).nested "AROONOSC" = .flt o ∧ 0 ≤ u ∧ u ≤ 100 ∧ 0 ≤ d ∧ d ≤ 100 ∧ -100 ≤ o ∧ o ≤ 100 := by
+  obtain ⟨vs, _, h2, h3⟩ := aroon_run_range 2 (by norm_num) "AROON_2" 4 winDemoRaw winDemoRaw_plain
+  obtain ⟨u, d, o, e1, e2, e3, _, a1, a2, _, b1, b2, _, c1, c2⟩ := (h3 4 (by decide)).2 (by decide)
+  exact ⟨vs, h2, (h3 1 (by decide)).1 (by decide), u, d, o, e1, e2, e3, a1, a2, b1, b2, c1, c2⟩
+
+example : ∃ out : List (Candle ℚ),
+    candlesOf (runIndicator (mkTop (.adx ((2 : Nat) : Int) ((2 : Nat) : Int) : Kind ℚ) "ADX_2_2" 4) {} atrDemoRaw [])
+      = .ok out ∧
+    readingByCandle (out.getD 1 default) "ADX_2_2" = adxNone3 ∧
+    FieldIn 0 100 (readingByCandle (out.getD 4 default) ("ADX_2_2" ++ "." ++ "ADX")) ∧
+    FieldNonneg (readingByCandle (out.getD 4 default) ("ADX_2_2" ++ "." ++ "DM_Plus")) := by
+  obtain ⟨out, h1, _, h3⟩ := adx_run_ranges "ADX_2_2" 4 2 2 (by norm_num) (by norm_num) adxNames_demo atrDemoRaw
+    atrDemoRaw_plain
+  exact ⟨out, h1, (h3 1 (by decide)).1 (by decide), (h3 4 (by decide)).2.1, (h3 4 (by decide)).2.2.1⟩
+
+/-- TSI over ℚ: the extra rounding law holds (`roundNegLe_rat`), so the range is exact -/
+example : ∃ out : List (Candle ℚ),
+    candlesOf (runIndicator (mkTop (.tsi ((2 : Nat) : Int) ((2 : Nat) : Int) "high" : Kind ℚ) "TSI_2_1" 4) {}
+      macdDemoRaw []) = .ok out ∧
+    readingByCandle (out.getD 2 default) "TSI_2_1" = .none ∧
+    ∃ y : ℚ, readingByCandle (out.getD 4 default) "TSI_2_1" = .flt y ∧ -100 ≤ y ∧ y ≤ 100 := by
+  obtain ⟨out, h1, _, h3⟩ := tsi_run_range "TSI_2_1" 4 2 2 "high" (·.h) (by norm_num) (by norm_num) tsiNames_demo
+    ⟨noDot_high, by decide⟩ (fun _ => rfl) macdDemoRaw macdDemoRaw_plain
+  obtain ⟨S, A, y, _, _, e3, _, _, _, _, _, hodd⟩ := (h3 4 (by decide)).2 (by decide)
+  exact ⟨out, h1, (h3 2 (by decide)).1 (by decide), y, e3, hodd (roundNegLe_rat _)⟩
+
+example : ∃ out : List (Candle ℚ),
+    candlesOf (runIndicator (mkTop (.atr ((2 : Nat) : Int)) "ATR_2" 4) {} atrDemoRaw []) = .ok out ∧
+    readingByCandle (out.getD 1 default) "ATR_2" = .none ∧
+    ∃ y : ℚ, readingByCandle (out.getD 2 default) "ATR_2" = .flt y ∧ 0 ≤ y := by
+  obtain ⟨out, h1, _, h3⟩ := atr_run_nonneg 2 (by norm_num) "ATR_2" 4 (by decide) ⟨by decide, by decide⟩ atrDemoRaw
+    atrDemoRaw_plain
+  exact ⟨out, h1, (h3 1 (by decide)).1 (by decide), (h3 2 (by decide)).2.1 (by decide)⟩
+
+example : ∃ out : List (Candle ℚ),
+    candlesOf (runIndicator (mkTop (.stdev ((3 : Nat) : Int) "close" : Kind ℚ) "STDEV_3" 4) {} rsiDemoRaw []) = .ok out ∧
+    readingByCandle (out.getD 2 default) "STDEV_3" = .none ∧
+    ∃ y : ℚ, readingByCandle (out.getD 4 default) "STDEV_3" = .flt y ∧ 0 ≤ y := by
+  obtain ⟨out, h1, _, h3⟩ := stdev_run_nonneg 3 (by norm_num) "STDEV_3" "close" (·.c) 4 sdNames_demo
+    ⟨noDot_close, by decide⟩ (fun _ => rfl) rsiDemoRaw rsiDemoRaw_plain
+  exact ⟨out, h1, (h3 2 (by decide)).1 (by decide), (h3 4 (by decide)).2 (by decide)⟩
+
+example : ∃ out : List (Candle ℚ),
+    candlesOf (runIndicator (mkTop (.bbands ((3 : Nat) : Int) "close" : Kind ℚ) "BB_3" 4) {} rsiDemoRaw []) = .ok out ∧
+    readingByCandle (out.getD 2 default) "BB_3" = bbNoneDict ∧
+    ∃ lo mid up : ℚ, readingByCandle (out.getD 4 default) "BB_3" = bbDict lo mid up ∧ lo ≤ mid ∧ mid ≤ up := by
+  obtain ⟨out, h1, _, h3⟩ := bbands_run_order 3 (by norm_num) "BB_3" "close" (·.c) 4 (by decide) bbNames_demo
+    ⟨noDot_close, by decide⟩ (fun _ => rfl) rsiDemoRaw rsiDemoRaw_plain
+  exact ⟨out, h1, (h3 2 (by decide)).1 (by decide), (h3 4 (by decide)).2.1 (by decide)⟩
+
+example : ∃ out : List (Candle ℚ),
+    candlesOf (runIndicator (mkTop (.kc ((2 : Nat) : Int) "close" (fl 2) : Kind ℚ) "KC_2" 4) {} kcDemoRaw []) = .ok out ∧
+    readingByCandle (out.getD 1 default) "KC_2" = kcNoneDict ∧
+    ∃ l b u : ℚ, readingByCandle (out.getD 2 default) "KC_2"
+        = .dict [("lower", .num (.flt l)), ("band", .num (.flt b)), ("upper", .num (.flt u))] ∧ l ≤ b ∧ b ≤ u := by
+  obtain ⟨out, h1, _, h3⟩ := kc_run_order 2 (by norm_num) "KC_2" "close" (·.c) 4 (fl 2) (by decide) kcNames_demo
+    ⟨noDot_close, by decide⟩ (fun _ => rfl) (by simp) kcDemoRaw kcDemoRaw_plain
+  exact ⟨out, h1, (h3 1 (by decide)).1 (by decide), (h3 2 (by decide)).2.1 (by decide)⟩
+
+theorem winDemoRaw_wf : ∀ c ∈ winDemoRaw, c.l.toF ≤ c.h.toF := by
+  intro c hc
+  simp only [winDemoRaw, List.mem_cons, List.not_mem_nil, or_false] at hc
+  rcases hc with rfl | rfl | rfl | rfl | rfl <;> simp [Demo.mk] <;> norm_num
+
+example : ∃ vs : List (Val ℚ),
+    candlesOf (runIndicator (mkTop (.donchian ((3 : Nat) : Int) : Kind ℚ) "DONCHIAN_3" 4) {} winDemoRaw [])
+      = .ok (deco "DONCHIAN_3" winDemoRaw vs) ∧
+    vs.getD 1 .none = dcNone ∧
+    ∃ (lo up : Num ℚ) (mid : ℚ),
+      vs.getD 4 .none = .dict [("DCL", .num lo), ("DCM", .num (.flt mid)), ("DCU", .num up)] ∧
+      lo.toF ≤ mid ∧ mid ≤ up.toF := by
+  obtain ⟨vs, _, h2, h3⟩ := donchian_run_order 3 (by norm_num) "DONCHIAN_3" 4 dcNames_demo winDemoRaw winDemoRaw_plain
+    winDemoRaw_wf
+  obtain ⟨⟨lo, up, mid, e, o1, o2, _⟩, _⟩ := (h3 4 (by decide)).2 (by decide)
+  exact ⟨vs, h2, (h3 1 (by decide)).1 (by decide), lo, up, mid, e, o1, o2⟩
+
+example := hl_run_enclose (K := ℚ) 2 (by norm_num) "HL_2" 4 winDemoRaw winDemoRaw_plain
+
+example : ∃ out : List (Candle ℚ),
+    candlesOf (runIndicator (mkTop (.supertrend ((2 : Nat) : Int) "close" (fl 3) : Kind ℚ) "ST_2" 4) {} atrDemoRaw [])
+      = .ok out ∧
+    readingByCandle (out.getD 1 default) "ST_2" = stNoneDict ∧
+    ∃ t : Num ℚ,
+      readingByCandle (out.getD 4 default) "ST_2"
+        = .dict [("trend", .num t), ("direction", .num (.int 1)), ("long", .num t), ("short", .none)] ∨
+      readingByCandle (out.getD 4 default) "ST_2"
+        = .dict [("trend", .num t), ("direction", .num (.int (-1))), ("long", .none), ("short", .num t)] := by
+  obtain ⟨out, h1, _, h3⟩ := supertrend_run_shape 2 (by norm_num) "ST_2" "close" (fl 3) 4 stNames_demo (by decide)
+    atrDemoRaw atrDemoRaw_plain
+  exact ⟨out, h1, (h3 1 (by decide)).1 (by decide), (h3 4 (by decide)).2 (by decide)⟩
+
+/-- Counter, fed as two candles at construction, then one, then two more: counts 0 0 0 1 2 of closes equal to 15 -/
+example : ∃ (vs : List (Val ℚ)) (cnt : Nat → Nat),
+    candlesOf (runIndicator (mkTop (.counter "close" (.num (.int 15))) "COUNT_close" 4) {} (rsiDemoRaw.take 2)
+      [[rsiDemoRaw.getD 2 default], rsiDemoRaw.drop 3]) = .ok (deco "COUNT_close" rsiDemoRaw vs) ∧
+    (∀ j, j < 5 → vs.getD j .none = .int (cnt j : Int)) ∧ (List.range 5).map cnt = [0, 0, 0, 1, 2] := by
+  obtain ⟨vs, cnt, h0, _, h2, h3, _⟩ := counter_run_moves (F := ℚ) "COUNT_close" "close" (·.c) (.num (.int 15)) 4
+    (by decide) ⟨noDot_close, by decide⟩ (fun _ => rfl) (rsiDemoRaw.take 2)
+    [[rsiDemoRaw.getD 2 default], rsiDemoRaw.drop 3] (fun c hc => rsiDemoRaw_plain c (by
+      simp [rsiDemoRaw] at hc ⊢; tauto))
+  refine ⟨vs, cnt, h2, h3, ?_⟩
+  subst h0
+  decide
 
 end Hex.C10
